@@ -182,6 +182,14 @@ SOLO_COMPOSITES = [
     L("int_tag_closed", {"oneOf": [obj({"t": {"type": "string", "enum": ["A"]}, "x": INT, "y": STR}, ["t", "x"], additionalProperties=False),
                                    obj({"t": {"type": "string", "enum": ["B"]}, "z": INT}, ["t"], additionalProperties=False),
                                    obj({"t": {"type": "string", "enum": ["C"]}}, ["t"], additionalProperties=False)]}, enf=True),
+    # several properties qualify as the internal tag (constant, required, pairwise distinct): the choice must be a function of the schema
+    L("int_tag_two_candidates", {"oneOf": [obj({"kind": {"type": "string", "enum": ["round"]}, "shape": {"type": "string", "enum": ["circle"]}, "radius": INT}, ["kind", "shape", "radius"]),
+                                           obj({"kind": {"type": "string", "enum": ["angular"]}, "shape": {"type": "string", "enum": ["square"]}, "side": INT}, ["kind", "shape", "side"])]}, enf=True),
+    L("int_tag_three_candidates", {"oneOf": [obj({"zeta": {"type": "string", "enum": ["z1"]}, "alpha": {"type": "string", "enum": ["a1"]}, "mid": {"type": "string", "enum": ["m1"]}}, ["zeta", "alpha", "mid"]),
+                                             obj({"zeta": {"type": "string", "enum": ["z2"]}, "alpha": {"type": "string", "enum": ["a2"]}, "mid": {"type": "string", "enum": ["m2"]}, "v": INT},
+                                                 ["zeta", "alpha", "mid"])]}, enf=True),
+    L("adj_two_candidates", {"oneOf": [obj({"t": {"type": "string", "enum": ["A"]}, "u": {"type": "string", "enum": ["X"]}, "c": INT}, ["t", "u", "c"]),
+                                       obj({"t": {"type": "string", "enum": ["B"]}, "u": {"type": "string", "enum": ["Y"]}, "c": STR}, ["t", "u", "c"])]}, enf=True),
     L("int_tag_mixed", {"oneOf": [obj({"t": {"type": "string", "enum": ["A"]}, "x": INT}, ["t", "x"], additionalProperties=False),
                                   obj({"t": {"type": "string", "enum": ["B"]}, "y": INT}, ["t"])]}),
     L("int_tag_shared", {"oneOf": [obj({"t": {"type": "string", "enum": ["A"]}, "v": INT}, ["t", "v"]),
@@ -473,7 +481,10 @@ REFINE_BASES = {
     "vec_int": ({"type": "array", "items": INT}, [{"minItems": 1}, {"maxItems": 2}, {"minItems": 2, "maxItems": 2}, {"uniqueItems": True},
                                                   {"items": {"minimum": 0}}]),
     "obj": (obj({"s": STR, "n": INT}, ["s"]), [{"required": ["n"]}, {"properties": {"s": {"maxLength": 2}}}, {"properties": {"extra": BOOL}},
-                                                {"additionalProperties": False}, {"properties": {"n": {"minimum": 0}}, "required": ["n"]}]),
+                                                {"additionalProperties": False}, {"properties": {"n": {"minimum": 0}}, "required": ["n"]},
+                                                # extensions adding an UNCONSTRAINED optional member (schema {}, true, or annotations only)
+                                                {"properties": {"note": {}}}, {"properties": {"note": True}}, {"properties": {"note": {"description": "free-form"}}},
+                                                {"properties": {"note": {}, "extra": BOOL}}, {"required": ["note"]}]),
 }
 
 
@@ -492,7 +503,7 @@ def refine_family(tier):
                            or (bname == "vec_int" and ckeys == "maxItems+minItems")
                            or (bname == "obj" and ckeys in ("required", "additionalProperties")))
                     sh = L("refine[%s:%s%d:%s%s]" % (bname, ckeys, ci, via, ":typed" if typed else ""), {"allOf": [first, c]},
-                           ff=typed and "uniqueItems" not in con and "multipleOf" not in con and "not" not in con, enf=enf, fam=True,
+                           ff="uniqueItems" not in con and "multipleOf" not in con and "not" not in con and "format" not in con, enf=enf, fam=True,
                            strish=bname in ("str", "str_max4", "enum_abc"), defs={"XBase": copy.deepcopy(base)} if via == "ref" else None)
                     sh["tg"] = {"rf_base": bname, "rf_con": ckeys, "rf_via": via, "rf_typed": typed}
                     sh["sup"] = False   # allOf used to add constraints is neither schemars output nor documented: rejection is allowed (C01)
@@ -558,7 +569,11 @@ def string_family(tier):
 def shapes_depth2(tier):
     """(L ∪ K(default leaves)) — list of shape dicts."""
     out = []
-    leaves = [LEAF[i] for i in QUICK_LEAVES] if tier == "quick" else LEAVES
+    if tier == "quick":
+        # every leaf is in the quick tier; the ones outside the core list are placed in two contexts only
+        leaves = [LEAF[i] for i in QUICK_LEAVES] + [dict(l, only_ctx=["def", "member_opt"], fam=True) for l in LEAVES if l["id"] not in QUICK_LEAVES]
+    else:
+        leaves = LEAVES
     out.extend(leaves)
     kleaves = ["string", "str_max2"] if tier == "quick" else ["string", "integer", "number", "str_max2", "enum_ab", "uuid", "any"]
     seen = set()
